@@ -630,6 +630,70 @@ func c14Kick(c *fw.Ctx) {
 	}
 }
 
+// c14KickHls: HLS sub sessions exist only with sub_session_hash_key; a kicked session keeps
+// polling with its session id and must be refused from then on.
+func c14KickHls(c *fw.Ctx) {
+	conf := srv.Conf{Hls: true, HlsFragMs: 1000, HlsFragNum: 6, HlsDelThr: 6, HlsHashKey: "c14", Api: true}
+	s, stop := c14StartServer(c, conf, "kickhls")
+	if s == nil {
+		return
+	}
+	defer stop()
+	bg := fmt.Sprintf("kh%d", c.Index)
+	pub, err := c14StartBg(s, bg, "", c.SubRng("bg"))
+	if err != nil {
+		c.Inconclusive("background publisher: %v", err)
+		return
+	}
+	defer pub.Close()
+	c.Describe("kick hls-sub")
+	from := s.Notify.Len()
+	var loc string
+	ok := srv.WaitFor(5*time.Second, func() bool {
+		st, hdr, _, err := srv.HttpGet(s.HttpAddr(), "/hls/"+bg+".m3u8", 2*time.Second)
+		if err != nil || st != 302 {
+			return false
+		}
+		loc = betweenS(hdr, "Location: ", "\r\n")
+		return loc != ""
+	})
+	if !ok {
+		c.Inconclusive("kick hls-sub: no redirect to a session url")
+		return
+	}
+	ev, ok := s.Notify.Wait(3*time.Second, from, func(e srv.Event) bool { return e.Kind == "sub_start" && e.Protocol == "HLS" })
+	if !ok {
+		c.Inconclusive("kick hls-sub: no sub_start for the hls session")
+		return
+	}
+	if st, _, _, _ := srv.HttpGet(s.HttpAddr(), loc, 2*time.Second); st != 200 {
+		c.Inconclusive("kick hls-sub: session url answers %d before the kick", st)
+		return
+	}
+	b, _ := json.Marshal(map[string]string{"stream_name": ev.StreamName, "session_id": ev.SessionId})
+	_, resp, _ := srv.HttpPostJson(s.ApiAddr(), "/api/ctrl/kick_session", string(b), 3*time.Second)
+	c.Eval(1)
+	c.Cell("kick/hls-sub")
+	if !strings.Contains(string(resp), `"error_code":0`) {
+		c.Violate("kick/api-refused/hls-sub", fmt.Sprintf("kick_session of a live hls session %s answered %s", ev.SessionId, trunc(string(resp), 200)), nil)
+		return
+	}
+	// the player keeps polling every 200 ms; after at most 4 s (the sweep runs once per second) it must be refused
+	served := 0
+	refused := srv.WaitFor(4*time.Second, func() bool {
+		st, _, _, err := srv.HttpGet(s.HttpAddr(), loc, 2*time.Second)
+		if err == nil && st == 200 {
+			served++
+			time.Sleep(180 * time.Millisecond)
+			return false
+		}
+		return err == nil
+	})
+	if !refused {
+		c.Violate("kick/still-served/hls-sub", fmt.Sprintf("hls session %s was kicked (API said ok) but its session url was still served %d times during the following 4 s", ev.SessionId, served), nil)
+	}
+}
+
 func c14Blacklist(c *fw.Ctx) {
 	conf := srv.Conf{Hls: true, HlsFragMs: 1000, HlsFragNum: 6, HlsDelThr: 6, Api: true, Flv: true}
 	s, stop := c14StartServer(c, conf, "bl")
@@ -873,7 +937,7 @@ func init() {
 			return n
 		},
 		CaseTimeout: func(string) time.Duration { return 5 * time.Minute },
-		Rule: "whole-server runs: (a) simple-auth matrix: 12 flag configurations (each flag alone, all on/off, override secret lower-case and with upper-case letters) × 9 protocol/direction requests (rtmp pub/sub, http-flv, ws-flv, http-ts, rtsp ANNOUNCE/DESCRIBE, hls m3u8 in both URL shapes) × 14 secret forms (absent, empty, wrong, right lower/UPPER, right for another stream, surrounded by other parameters, look-alike parameter name, duplicated right/wrong, malformed %zz query, override); expected outcome from a table written from the property text (three-valued: duplicated right+wrong and right-next-to-malformed are recorded, not judged); a refused publisher must not be listed by the stat API; (b) RTSP auth: Basic and Digest × none / right / right after 401 / wrong password / wrong user / other method / malformed (foreign nonce and other-uri replay recorded only); (c) kick of each session kind → socket EOF; (d) blacklist 2 s: blocked ≤0.9 s, served ≥4.2 s, nothing judged in between; (e) HLS file server: ≈300 traversal paths sent as raw HTTP with decoy files outside the root — no outside content returned, no outside path opened (instrumented file-system layer); (f) 14 hostile stream names via RTMP, RTSP and the customize API with HLS and both recorders on — no file created outside the configured directories. cell = clause × protocol × form.",
+		Rule: "whole-server runs: (a) simple-auth matrix: 12 flag configurations (each flag alone, all on/off, override secret lower-case and with upper-case letters) × 9 protocol/direction requests (rtmp pub/sub, http-flv, ws-flv, http-ts, rtsp ANNOUNCE/DESCRIBE, hls m3u8 in both URL shapes) × 14 secret forms (absent, empty, wrong, right lower/UPPER, right for another stream, surrounded by other parameters, look-alike parameter name, duplicated right/wrong, malformed %zz query, override); expected outcome from a table written from the property text (three-valued: duplicated right+wrong and right-next-to-malformed are recorded, not judged); a refused publisher must not be listed by the stat API; (b) RTSP auth: Basic and Digest × none / right / right after 401 / wrong password / wrong user / other method / malformed (foreign nonce and other-uri replay recorded only); (c) kick of each session kind → socket EOF; kick of an HLS sub session (hash key on) that keeps polling → refused within 4 s; (d) blacklist 2 s: blocked ≤0.9 s, served ≥4.2 s, nothing judged in between; (e) HLS file server: ≈300 traversal paths sent as raw HTTP with decoy files outside the root — no outside content returned, no outside path opened (instrumented file-system layer); (f) 14 hostile stream names via RTMP, RTSP and the customize API with HLS and both recorders on — no file created outside the configured directories. cell = clause × protocol × form.",
 		Assumptions: []string{"admission is observed as pub_start/sub_start notification, HTTP status line, RTSP status, or playlist bytes; refusal as connection close / non-200 / no playlist bytes", "case variants of the override secret and Digest nonce freshness are not defined by the property: recorded, not judged"},
 		MinCells: 20,
 		Run: func(c *fw.Ctx, i int) {
@@ -891,6 +955,7 @@ func init() {
 				c14RtspAuth(c, 1)
 			case k == len(cells)+2:
 				c14Kick(c)
+				c14KickHls(c)
 			case k == len(cells)+3:
 				c14Blacklist(c)
 			case k == len(cells)+4:
